@@ -18,7 +18,9 @@
       run_state ops t0  bar and clock after the history [ops] of public ProgressBar calls / clock
                         advances on a bar created at t0; no_wrap = the u64 ns clock does not wrap
       bar_evs           the estimator calls this history makes (position limiter included)
-      bar_points        the user-visible (position, instant) pairs of the calls of a history
+      bar_points        the user-visible (position, instant) pairs of the calls of a history that
+                        bring the estimator news (a tick / set_length / set_message that leaves
+                        the position where the estimator's baseline already is, is not listed)
     Naming: [_refuted] = the clause as written is false on the faithful model (witness);
     [_partial] = the statement covers less than the property's clause (docs/C09.md says what);
     [_pre_56491a5] = regression statement about the function as it was before that fix: commit.
@@ -170,10 +172,12 @@ Proof. exact bar_steady_every_instant. Qed.
 Print Assumptions C09_bar_steady_every_instant.
 
 (** bar level, hypothesis on what the USER sees: the position right after every call that can
-    reach the estimator (set_position, inc, dec, update, tick, set_length, unset_length, reset_eta, reset_elapsed, reset),
-    paired with the instant of the call, lies on the line pos = r * t + c through (0, creation);
-    no matter how often or how irregularly the calls arrive and which of them the position limiter
-    lets through *)
+    reach the estimator (set_position, inc, dec, update, tick, set_length, unset_length, reset_eta,
+    reset_elapsed, reset), paired with the instant of the call, lies on the line pos = r * t + c
+    through (0, creation) - EXCEPT calls that leave the position where the estimator's baseline
+    already is (tick / set_length / set_message after a recorded update: they may be interleaved
+    anywhere, [record] ignores them); no matter how often or how irregularly the calls arrive and
+    which of them the position limiter lets through *)
 Theorem C09_bar_steady_line : forall r c len t0 ops now', no_wrap ops t0 ->
   on_line r c 0 t0 ->
   Forall (pt_on_line r c) (bar_points ops t0 (bar_new Rar len t0)) ->
@@ -517,6 +521,22 @@ Theorem C09_f64_bar_finite_nonneg : forall p len t0 ops,
 Proof. exact fl_bar_finite_nonneg. Qed.
 Print Assumptions C09_f64_bar_finite_nonneg.
 
+(** eta() and duration() cannot panic in binary64: the conversion [secs_to_duration]
+    ([s.trunc() as u64], [(s.fract() * 1e9) as u32], [Duration::new]; state.rs:692-696) is total
+    on EVERY binary64 datum - NaN, +-infinity, negative, subnormal, huge - hence eta() and
+    duration() return for every state of the bar, every clock reading and every powf (no
+    hypothesis at all) *)
+Theorem C09_f64_secs_to_duration_total : forall p (x : FL.F),
+  exists d, secs_to_duration (FL.arp p) x = Some d.
+Proof. exact fl_secs_to_duration_total. Qed.
+Print Assumptions C09_f64_secs_to_duration_total.
+
+Theorem C09_f64_eta_duration_total : forall p (b : bar FL.F) now,
+  (exists d, bar_eta (FL.arp p) b now = Some d) /\
+  (exists d, bar_duration (FL.arp p) b now = Some d).
+Proof. exact fl_eta_duration_total. Qed.
+Print Assumptions C09_f64_eta_duration_total.
+
 (** ** Non-vacuity *)
 (** a monotonic history with an acceleration (1/s for 15 s, then 100/s for 15 s): hypotheses of
     C09_finite_nonneg / C09_bounded / C09_decay_limit with M = 100 *)
@@ -564,3 +584,10 @@ Proof. exact wit1_state. Qed.
 (** [pow_ok] is satisfiable: the step function "1.0 at exponent 0, 0.5 above" *)
 Example C09_nonvacuous_pow_ok : pow_ok pow_step.
 Proof. exact pow_ok_step. Qed.
+
+(** a steady stream (rate 1) with a tick() interleaved in the middle of a gap: the tick is not
+    among the points that have to lie on the line, the hypothesis of C09_bar_steady_line holds *)
+Example C09_nonvacuous_interleaved_tick : forall len,
+  bar_points tick_wit_ops 0 (bar_new Rar len 0) = [(15, 15000000000); (30, 30000000000)]%N /\
+  Forall (pt_on_line 1 0) (bar_points tick_wit_ops 0 (bar_new Rar len 0)).
+Proof. exact tick_wit_points. Qed.
